@@ -214,6 +214,12 @@ class PVLEncoder(object):
                 return text
 
             quoted = "|".join(f"{q}[^{q}]*{q}" for q in self.grammar.quotes)
+            # The same holds for white space inside a units expression.
+            quoted += "|{}[^{}]*{}".format(
+                self.grammar.units_delimiters[0],
+                self.grammar.units_delimiters[1],
+                self.grammar.units_delimiters[1],
+            )
             value = re.sub(quoted, hide, posteq.strip())
 
             lines = textwrap.wrap(
